@@ -1,7 +1,7 @@
 #!/bin/bash
 # evalmutant.sh <ID> <k> [tier]: validate a sub-agent mutant (/tmp/wt/out-<ID>/patch<k>.diff + demo<k>_test.go)
 # in a scratch worktree, then run the property's check against it in /repo and undo it.
-ID=$1; K=$2; TIER=${3:-quick}; PROP=${ID%[bcdefg]}
+ID=$1; K=$2; TIER=${3:-quick}; PROP=${ID%[bcdefgh]}
 export GOFLAGS=-mod=mod GOPROXY=off GOSUMDB=off GOTOOLCHAIN=local
 OUT=/tmp/wt/out-$ID; P=$OUT/patch$K.diff; D=$OUT/demo${K}_test.go
 [ -f "$P" ] || { echo "no patch $P"; exit 2; }
